@@ -150,6 +150,18 @@ def script_for(src, data, expected, src0=None, uses_tree=False):
     return s
 
 
+RENDER_STACK = 160  # frames available to one render; endless macro recursion hits it quickly
+
+
+def _stack_depth():
+    f = sys._getframe()
+    n = 0
+    while f is not None:
+        n += 1
+        f = f.f_back
+    return n
+
+
 def run_real(env_cls, src, datas, rename=None):
     """compile in a fresh Environment, render on each data assignment."""
     env = env_cls(**G.ENV_KWARGS)
@@ -158,11 +170,16 @@ def run_real(env_cls, src, datas, rename=None):
     except Exception as e:  # noqa: BLE001
         return None, type(e).__name__ + ": " + str(e)
     outs = []
-    for d in datas:
-        try:
-            outs.append(tpl.render(**G.render_data(d, rename)))
-        except Exception as e:  # noqa: BLE001
-            outs.append(G.Failure(type(e).__name__))
+    old_limit = sys.getrecursionlimit()
+    sys.setrecursionlimit(_stack_depth() + RENDER_STACK)
+    try:
+        for d in datas:
+            try:
+                outs.append(tpl.render(**G.render_data(d, rename)))
+            except Exception as e:  # noqa: BLE001
+                outs.append(G.Failure(type(e).__name__))
+    finally:
+        sys.setrecursionlimit(old_limit)
     return outs, None
 
 
@@ -181,8 +198,6 @@ def shard(arg) -> core.Part:
         if n <= 3:
             p.violation(sig, make_detail())
 
-    old_limit = sys.getrecursionlimit()
-    sys.setrecursionlimit(420)  # endless macro recursion ends in RecursionError quickly
     try:
         idx = -1
         for prog in G.programs(nmax, pool, profile, shard=(k, K), min_nodes=nmin):
@@ -281,7 +296,7 @@ def shard(arg) -> core.Part:
                         "renaming": name, "profile": profile,
                         "script": script_for(src2, d2, g, src0=src, uses_tree=uses_tree)})
     finally:
-        sys.setrecursionlimit(old_limit)
+        pass
     return p
 
 
